@@ -199,8 +199,9 @@ class Play:
         Hh = Hh or r.new_H()
         Hh.depth = bool(self.case.get("depth"))
         all_provs = {c["prov"] for c in self.spec["cbs"]} | {g["prov"] for g in self.spec.get("guards", [])}
-        is_async = is_async_spec(self.spec, all_provs - set(self.late))
-        it = self.new_interp(all_provs - set(self.late), is_async, state0)
+        ctor_provs = {p for p in all_provs if not p.startswith("late")}  # late* providers are attached by add_listener only
+        is_async = is_async_spec(self.spec, ctor_provs)
+        it = self.new_interp(ctor_provs, is_async, state0)
         ctx = Ctx(name, None, Hh, it, None)
         self.ctxs[name] = ctx
         if name == "main":
